@@ -33,17 +33,25 @@ BUS_COLS = {"line": ["from_bus", "to_bus"], "trafo": ["hv_bus", "lv_bus"], "traf
             "asymmetric_load": ["bus"], "asymmetric_sgen": ["bus"]}
 
 
+_FRESH = {}
+
+
 def scrub(net):
-    """copy of the inputs without any result / internal state"""
+    """copy of the inputs without any result / internal state: private entries are reset to those of a new empty network"""
+    if not _FRESH:
+        _FRESH["net"] = pp.create_empty_network()
+    fresh = _FRESH["net"]
     n = copy.deepcopy(net)
     for k in list(n.keys()):
         if k.startswith("res_") and isinstance(n[k], pd.DataFrame):
             n[k] = n[k].iloc[0:0]
-        elif k.startswith("_") and k not in ("_empty_res_bus",) and not k.startswith("_empty"):
-            try:
+        elif k.startswith("_") and not k.startswith("_empty"):
+            if k in fresh:
+                n[k] = copy.deepcopy(fresh[k])
+            else:
                 del n[k]
-            except Exception:
-                pass
+    if "converged" in n:
+        n["converged"] = False
     return n
 
 
